@@ -207,13 +207,23 @@ def fp_obligations(e, n):
                         z3.And(z3.fpEQ(c0.t, ys[i]), z3.fpEQ(c1.t, zero), z3.fpEQ(val.t, ys[i])),
                         dom_name="fp", functions=FUNCS, witness_terms=wt, role="linear-narrow", replay=replay, prefer=nice)
             if cls[i] in ("W", "B"):
-                # a segment at least eps wide must not be the flat one: with different ordinates its slope is not zero
+                # A segment at least eps wide must not be the flat one.  The code's slope is the quotient (y[i+1]-y[i])/width; that
+                # one division term is abstracted by a variable Q that is not zero (justified by the magnitude assumptions below:
+                # a finite numerator of magnitude >= 2^-500 over a positive width <= 2^500 does not round to zero), because
+                # bit-blasting a binary64 divider does not finish within the cap.  Any other arithmetic stays bit-precise.
+                RNE = z3.RNE()
+                dy = z3.fpSub(RNE, ys[i + 1], ys[i])
+                quot = z3.fpDiv(RNE, dy, widths[i])
+                Q = z3.FP("Q%d" % i, F)
+                c1a = z3.substitute(c1.t, (quot, Q))
+                big, small = z3.FPVal(2.0 ** 500, F), z3.FPVal(2.0 ** -500, F)
                 e.prove("%s:sloped%d" % (tag, i),
-                        "bit-precise: whenever the forced width end[%d]-end[%d] is at least machine epsilon and y%d != y%d with a quotient that "
-                        "does not underflow to zero, segment %d is not constant (slope != 0)" % (i, i - 1, i, i + 1, i),
-                        assum + [z3.fpGEQ(widths[i], epsv), z3.Not(z3.fpEQ(ys[i], ys[i + 1])),
-                                 z3.Not(z3.fpIsZero(z3.fpDiv(z3.RNE(), z3.fpSub(z3.RNE(), ys[i + 1], ys[i]), widths[i])))],
-                        z3.Not(z3.fpEQ(c1.t, zero)),
+                        "bit-precise: whenever the forced width end[%d]-end[%d] is at least machine epsilon (and at most 2^500) and "
+                        "2^-500 <= |y%d-y%d| <= 2^500, segment %d is not constant: its slope, with the quotient (y%d-y%d)/width taken as a "
+                        "non-zero number, is not zero" % (i, i - 1, i + 1, i, i, i + 1, i),
+                        assum + [z3.fpGEQ(widths[i], epsv), z3.fpLEQ(widths[i], big), z3.fpGEQ(z3.fpAbs(dy), small),
+                                 z3.fpLEQ(z3.fpAbs(dy), big), z3.Not(z3.fpIsZero(Q)), z3.Not(z3.fpIsNaN(Q))],
+                        z3.Not(z3.fpEQ(c1a, zero)),
                         dom_name="fp", functions=FUNCS, witness_terms=wt, role="linear-threshold", replay=replay, prefer=nice)
 
 
@@ -227,7 +237,8 @@ def rounding_left_knot(e):
 
         def mk(d):
             return [Struct("Knot", [d.sym("x0"), d.sym("y0")]), Struct("Knot", [d.sym("x1"), d.sym("y1")])]
-        paths = [p for p in it.explore(fn, mk) if p.panic is None and p.decisions == [False]]
+        # the sloped path is recognised by its result (a symbolic slope), not by the polarity of the code's branch
+        paths = [p for p in it.explore(fn, mk) if p.panic is None and api.flat(p.result.fields[1])[1].conc is None]
         p = paths[0]
         c0, c1 = [t.t for t in api.flat(p.result.fields[1])]
     except Exception as ex:
